@@ -29,7 +29,7 @@ import lib
 import sched
 
 # ------------------------------------------------------------------------------------------------ programs
-# op syntax shared with the driver:  inc:o:a get:o lab:k linc:k:a rem:k clr reg:c unreg:c col rcol:c rrcol:c  (+ oracle-only obs:s:a obs:h:a info:v state:k sti:v gti rcx:c rct stn linc2:k:a regy:i)
+# op syntax shared with the driver:  inc:o:a get:o lab:k linc:k:a rem:k clr reg:c unreg:c col rcol:c rrcol:c  (+ oracle-only obs:s:a obs:h:a info:v state:k sti:v gti rcx:c rct stn linc2:k:a regy:i unregy:i)
 # rcol:c  = registry.collect() over a collector that registers/unregisters x<c> and does a restricted lookup and a
 #           get_target_info from inside its collect();  rrcol:c = registry.restricted_registry(['e']).collect() over the same collector
 QUICK_PROGRAMS = [
@@ -62,6 +62,13 @@ QUICK_PROGRAMS = [
     ('cp2', 'linc:0:1|linc2:0:2', 1, False),
     # two DIFFERENT collectors claiming one name: exactly one register() may succeed
     ('c', 'regy:1|regy:2', 1, False),
+    # the COLLECTING thread runs first and is pre-empted by a labels() / remove(): the quiescent final collect must expose
+    # exactly the children the table holds
+    ('p', 'col|linc:0:1', 1, True),
+    ('q', 'col|rem:0', 1, True),
+    # world y: collector y1 (claiming x9) is registered in the set-up phase; y2 claims the same name
+    ('cy', 'unregy:1|regy:2', 1, False),
+    ('cy', 'unregy:1|col,regy:2', 1, False),
 ]
 DEEP = {'linc:0:1|linc2:0:2', 'linc:0:1,linc:1:1|linc2:0:2,linc2:1:2'}
 THOROUGH_PROGRAMS = [
@@ -87,6 +94,8 @@ THOROUGH_PROGRAMS = [
     ('cxg', 'rcx:1,rct|unreg:1,stn|rcx:2,unreg:2', 2, False),
     ('p2', 'linc:0:1,linc:1:1|linc2:0:2,linc2:1:2', 2, False),
     ('c', 'regy:1|regy:2|col', 2, False),
+    ('q', 'col,col|rem:0,linc:1:1|clr', 2, False),
+    ('cy', 'unregy:1|col,regy:2|col', 2, False),
 ]
 BACKENDS = ('mutex', 'mmap')
 
@@ -216,6 +225,8 @@ class World:
         if 'x' in flags:                 # set-up phase: the named collectors are registered before the threads start
             self.R.register(self.X[1])
             self.R.register(self.X[2])
+        if 'y' in flags:                 # set-up phase: y1 (claiming x9) is registered before the threads start
+            self.R.register(self.Y[1])
         self.E = None
         if 'e' in flags:
             self.E = ReentrantCollector(self)
@@ -337,6 +348,9 @@ def make_thunk(w, tid, ops, log):
             except ValueError:
                 return [], {'regy': 'duplicate'}
             return [], {'regy': 'ok'}
+        if k == 'unregy':
+            w.R.unregister(w.Y[int(f[1])])
+            return [], None
         if k == 'rem':
             w.p.remove(f[1])
             return [], None
@@ -469,6 +483,28 @@ def final_state(w):
         if n != 'target_info' and col not in c2n:
             bad.append('name %r maps to a collector that is not registered' % n)
     st['maps_bad'] = bad
+    # the quiescent collect must expose exactly the children the tables hold
+    mism = []
+    for parent, fam in ((w.p, 'p_total'), (getattr(w, 'p2', None), 'p2_total')):
+        if parent is None:
+            continue
+        table = sorted(k[0] for k in parent._metrics)
+        exposed = sorted(dict(lab)['l'] for (name, lab) in vals if name == fam)
+        if table != exposed:
+            mism.append('%s: the child table holds %r, the final collect exposes %r' % (fam[:-6], table, exposed))
+    st['children_mismatch'] = mism
+    # a registered collector is collected exactly once and can be unregistered without error (done last: it changes the world)
+    regd = []
+    for i, y in sorted(w.Y.items()):
+        if y in c2n:
+            n_exposed = names.count('x9')
+            try:
+                w.R.unregister(y)
+                err = None
+            except Exception as e:
+                err = type(e).__name__
+            regd.append((i, n_exposed, err))
+    st['registered_y'] = regd
     st['files'] = read_files(w) if w.backend == 'mmap' else None
     st['keys'] = {k[0]: id(ch) for k, ch in (w.p._metrics.items() if w.p is not None else [])}
     st['regs'] = sorted(x.i for x in w.R._collector_to_names if isinstance(x, XCollector))
@@ -581,11 +617,27 @@ def oracle(program, res, obs):
             return r
     # the registry never holds two collectors claiming one name (C06's invariant, under concurrency)
     regy = [e[4]['regy'] for e in obs['log'] if e[4] is not None and 'regy' in e[4]]
-    if regy and not any(f[0] == 'unreg' for f in ops) and regy.count('ok') != 1:
+    if len(regy) >= 2 and not any(f[0] in ('unreg', 'unregy') for f in ops) and regy.count('ok') != 1:
         return ('C02:two-collectors-one-name', '%d of %d register() calls of collectors claiming the same name succeeded' % (
             regy.count('ok'), len(regy)))
     if obs['final']['dup_families']:
         return ('C02:two-collectors-one-name', 'the final collect exposes families twice: %r' % (obs['final']['dup_families'],))
+    if obs['final']['children_mismatch']:
+        return ('C02:stale-collect', 'after the threads joined: ' + '; '.join(obs['final']['children_mismatch']))
+    for i, n_exposed, err in obs['final']['registered_y']:
+        if n_exposed != 1 or err is not None:
+            return ('C02:registry-maps-inconsistent', 'collector y%d is registered after the join, its family is exposed %d time(s), '
+                    'unregister() -> %s' % (i, n_exposed, err or 'ok'))
+    # a collect that no longer shows the only holder of a name, followed in the same thread by a register() of another
+    # collector claiming that name, must succeed: the unregister that removed the holder had released the name
+    if sum(1 for f in ops if f[0] == 'regy') == 1 and not any(f[0] == 'reg' and f[1] == '9' for f in ops):
+        for e in obs['log']:
+            if e[4] is not None and e[4].get('regy') == 'duplicate':
+                before = [c for c in obs['log'] if c[0] == e[0] and c[1] < e[1] and c[2] == 'col' and c[4] is not None]
+                if before and not any(name == 'x9' for (name, lab) in before[-1][4]):
+                    return ('C02:name-held-by-unregistered-collector',
+                            'thread %d collected without the collector claiming x9 and then its register() of a collector '
+                            'claiming x9 raised "Duplicated timeseries"' % e[0])
     if obs['final']['maps_bad']:
         return ('C02:registry-maps-inconsistent', 'after the threads joined: ' + '; '.join(obs['final']['maps_bad'][:3]))
     return identity_and_collect_oracle(ops, dyn, obs)
@@ -893,7 +945,7 @@ def run(ctx):
             ctx.broken.append('WellLocked no longer holds of the extracted skeleton(s): %s' % ', '.join(bad))
     # programs that never touch a value (registry / Info / Enum / target-info operations only) do not depend on the value
     # back-end: they run once
-    reg_only = {'reg', 'unreg', 'rcol', 'rrcol', 'rcx', 'rct', 'stn', 'sti', 'gti', 'regy', 'info', 'state', 'col'}
+    reg_only = {'reg', 'unreg', 'unregy', 'rcol', 'rrcol', 'rcx', 'rct', 'stn', 'sti', 'gti', 'regy', 'info', 'state', 'col'}
 
     def backends_of(w, p):
         kinds = {op.split(':')[0] for t in p.split('|') for op in t.split(',')}
